@@ -701,6 +701,97 @@ fn watch_binary_cases(tier: Tier, report: &mut Report) {
     report.set("watch_process_steps", steps);
 }
 
+
+// ------------------------------------------------------------------------------------------------ configuration switches
+
+/// every ordered pair of variants of one rule (the property menus of C19): a worker that processed the project with the first
+/// configuration and is told that the configuration file changed must leave what a fresh run with the second one writes
+fn config_switch_cases(report: &mut Report) {
+    let mut pairs: Vec<(String, String)> = Vec::new();
+    for menu in super::c19::rule_menus() {
+        let texts: Vec<String> = menu.variants.iter().filter_map(|v| super::c19::rule_text(menu.name, v, "").pop()).map(|r| format!("{{rules: [{}]}}", r)).collect();
+        for a in &texts {
+            for b in &texts {
+                if a != b {
+                    pairs.push((a.clone(), b.clone()));
+                }
+            }
+        }
+    }
+    let outputs = |r: &Resources| -> BTreeMap<String, String> {
+        let mut m = BTreeMap::new();
+        for p in r.walk("out") {
+            m.insert(p.to_string_lossy().replace('\\', "/"), r.get(&p).unwrap_or_default());
+        }
+        m
+    };
+    let fresh = |config: &str| -> Option<(BTreeMap<String, String>, Vec<String>)> {
+        let r = Resources::from_memory();
+        for (p, c) in super::c19::project() {
+            let _ = r.write(p, c);
+        }
+        let _ = r.write(".darklua.json5", config);
+        let res = r.clone();
+        let tree = guarded(move || darklua_core::process(&res, Options::new("src").with_output("out"))).ok()?.ok()?;
+        let mut errors: Vec<String> = tree.collect_errors().iter().map(|e| e.to_string()).collect();
+        errors.sort();
+        Some((outputs(&r), errors))
+    };
+    let results: Vec<(bool, Option<Violation>)> = pairs
+        .par_iter()
+        .map(|(a, b)| {
+            let (want, want_errors) = match (fresh(a), fresh(b)) {
+                (Some(_), Some(w)) => w,
+                _ => return (false, None),
+            };
+            let r = Resources::from_memory();
+            for (p, c) in super::c19::project() {
+                let _ = r.write(p, c);
+            }
+            let _ = r.write(".darklua.json5", a);
+            let res = r.clone();
+            let b2 = b.clone();
+            let run = guarded(move || {
+                let mut tree = darklua_core::process(&res, Options::new("src").with_output("out")).map_err(|e| e.to_string())?;
+                let _ = res.write(".darklua.json5", &b2);
+                tree.source_changed(".darklua.json5");
+                tree.process(&res, Options::new("src").with_output("out")).map_err(|e| e.to_string())?;
+                let mut errors: Vec<String> = tree.collect_errors().iter().map(|e| e.to_string()).collect();
+                errors.sort();
+                Ok::<Vec<String>, String>(errors)
+            });
+            let problem = match run {
+                Err(p) => Some(format!("PANIC: {}", p)),
+                Ok(Err(e)) => Some(format!("the worker fails: {}", e)),
+                Ok(Ok(errors)) => {
+                    let got = outputs(&r);
+                    if errors != want_errors {
+                        Some(format!("errors {:?}, a fresh run reports {:?}", errors, want_errors))
+                    } else {
+                        want.iter().find(|(k, v)| got.get(*k) != Some(v)).map(|(k, v)| format!("{} differs from a fresh run\n    fresh:       {:?}\n    incremental: {:?}", k, v, got.get(k)))
+                    }
+                }
+            };
+            let nontrivial = fresh(a).map(|x| x.0) != Some(want.clone());
+            (nontrivial, problem.map(|pb| Violation {
+                finding: None,
+                summary: format!("after the configuration file changed, {}\n--- first configuration  {}\n--- second configuration {}", pb, a, b),
+                replay: json!({"kind": "configuration switch", "first": a, "second": b, "problem": pb}),
+            }))
+        })
+        .collect();
+    let mut differing = 0u64;
+    for (nontrivial, v) in results {
+        report.evaluations += 1;
+        if nontrivial {
+            differing += 1;
+        }
+        report.violations.extend(v);
+    }
+    report.set("configuration_switch_pairs", pairs.len() as u64);
+    report.set("configuration_switch_pairs_with_different_outputs", differing);
+}
+
 /// breadth-first search over batches from the state after the initial run, on one backend
 fn explore(on_disk: bool, tier: Tier, report: &mut Report) -> (usize, usize) {
     let backend = if on_disk { "temporary directory on the file system" } else { "in-memory resources" };
@@ -838,6 +929,7 @@ pub fn run(tier: Tier) -> Report {
     report.set("seconds_on_disk_search", t0.elapsed().as_secs_f64());
     let t0 = std::time::Instant::now();
     watch_binary_cases(tier, &mut report);
+    config_switch_cases(&mut report);
     report.set("seconds_watch_process", t0.elapsed().as_secs_f64());
     report.traces_validated = report.transitions;
     report.exhaustive = false;
